@@ -47,6 +47,7 @@ class Con:
     lhs_node: ast.AST = None
     rhs_node: ast.AST = None
     cond: list = field(default_factory=list)
+    consumed_by: list = field(default_factory=list)  # indices of problems that took this constraint at construction time
 
     def sides(self):
         return (self.lhs, self.rhs)
@@ -298,6 +299,20 @@ class Skeleton:
                             if isinstance(nm, ast.Name):
                                 conts.append(nm.id)
                 name = assigned.id if isinstance(assigned, ast.Name) else None
+                # the constraints collected so far under these container names belong to this problem, whatever
+                # happens to the names afterwards
+                pidx = len(self.probs)
+                cnames = set(conts)
+                grew = True
+                while grew:
+                    grew = False
+                    for cc in self.cons:
+                        if cc.rel == "alias" and cc.container in cnames and cc.lhs[1] not in cnames:
+                            cnames.add(cc.lhs[1])
+                            grew = True
+                for cc in self.cons:
+                    if cc.container in cnames:
+                        cc.consumed_by.append(pidx)
                 senses = set()
                 for a in alts:
                     if isinstance(a, ast.Call):
@@ -341,8 +356,10 @@ class Skeleton:
                 if c.rel == "alias" and c.container in names and c.lhs[1] not in names:
                     names.add(c.lhs[1])
                     changed = True
-        # a container returned by a repo function call (npa_constraints) counts as reaching
-        return [c for c in self.cons if c.rel != "alias" and c.container in names], names
+        if prob is not None:
+            pi = self.probs.index(prob)
+            return [c for c in self.cons if c.rel != "alias" and (pi in c.consumed_by or c.container in names)], names
+        return [c for c in self.cons if c.rel != "alias" and (c.consumed_by or c.container in names)], names
 
     def dangling(self):
         """Constraint objects constructed but never handed to any problem."""
